@@ -53,16 +53,17 @@ class C20(Check):
               'edits': [('fast_ticc/main_loop.py', '    finally:\n', '    except RuntimeError:\n        task_pool.terminate()\n        raise\n    else:\n')]}
 
     def bounds(self, tier):
-        return {'iteration_limit': '1..3', 'K': '2..3', 'fault position': 'symbolic (round, cluster) / (round, phase)', 'fault class': 'Exception, AttributeError, IndexError, ValueError, RuntimeError (subclasses)', 'front end': 'single and joint',
+        return {'iteration_limit': '1..3' if tier == 'quick' else '1..4 (phase faults 1..5)', 'K': '2..3' if tier == 'quick' else '2..4', 'fault position': 'symbolic (round, cluster) / (round, phase)', 'fault class': 'Exception, AttributeError, IndexError, ValueError, RuntimeError (subclasses)', 'front end': 'single and joint',
                 'multiprocessing env': ['unset', 'set'], 'num_processors': '1..3'}
 
     def configs(self, tier):
         cfgs = []
-        for K in (2, 3):
+        for K in ((2, 3) if tier == 'quick' else (2, 3, 4)):
             for env in (None, '1'):
-                cfgs.append(Config('task_fault_K%d_env%s' % (K, env), self.task_fault, {'K': K, 'env': env, 'limmax': 3},
+                cfgs.append(Config('task_fault_K%d_env%s' % (K, env), self.task_fault,
+                                   {'K': K, 'env': env, 'limmax': 3 if tier == 'quick' else 4},
                                    split=3, witness_every=37))
-        cfgs.append(Config('phase_fault', self.phase_fault, {'K': 2, 'limmax': 3}, split=3, witness_every=5))
+        cfgs.append(Config('phase_fault', self.phase_fault, {'K': 2, 'limmax': 3 if tier == 'quick' else 5}, split=3, witness_every=5))
         cfgs.append(Config('donor_shortage', self.donor_shortage, {}))
         cfgs.append(Config('wrong_input', self.wrong_input, {}))
         return cfgs
